@@ -23,6 +23,11 @@ METAS = {
     "combined_before_and_after": m("before_and_after(h0): after part skipped on failure; otherwise sees the context its before part produced", 3),
     "combined_wraps_before": m("serve.before(h1).before_and_after(h0)"),
     "before_wraps_combined": m("serve.before_and_after(h1).before(h0)"),
+    # thorough tier
+    "chain_len4_deep": dict(m("four chained hooks, every failing position"), thorough_only=True),
+    "after_wraps_combined_deep": dict(m("serve.before_and_after(h0).after(a1)"), thorough_only=True),
+    "combined_wraps_after_deep": dict(m("serve.after(a1).before_and_after(h0)"), thorough_only=True),
+    "triple_nest_deep": dict(m("serve.before(h2).after(a1).before(h0): three levels"), thorough_only=True),
 }
 STATIC = {
     "coverage": {
@@ -50,6 +55,8 @@ STATIC = {
 def main(tier):
     t0 = time.time()
     with Scratch(PID) as s:
-        recs, viol, known, inc, wall = kprop.decide(PID, tier, s, CRATE, METAS, timeout_s=1500 if tier == "quick" else 3600)
+        metas = {k: v for k, v in METAS.items() if tier == "thorough" or not v.get("thorough_only")}
+        recs, viol, known, inc, wall = kprop.decide(PID, tier, s, CRATE, metas, timeout_s=1500 if tier == "quick" else 7200,
+                                                    harness_timeout=900 if tier == "quick" else 3600)
         return kprop.finish(PID, tier, t0, recs, viol, known, inc, STATIC,
                             {"source_digest": s.src_digest, "kani_wall_s": round(wall, 1)})
